@@ -39,7 +39,7 @@ def ref_keyspend_sig(seed: bytes, script: bytes, sf: dict, flag: int) -> bytes:
     return sign_scalar(E.scalar_add(x, t), message(sf, flag)) + (bytes([flag]) if flag else b'')
 
 
-def one(F, T, seed, oseed, script, oscript, w, fl, lockkind, sf=None, prefix=b'', limit=128, allowed=ALLOWED, fh=None, indep=False):
+def one(F, T, seed, oseed, script, oscript, w, fl, lockkind, sf=None, prefix=b'', limit=128, allowed=ALLOWED, fh=None, indep=False, suffix=b''):
     sf = sf or SF
     S, OS = T.Script.from_bytes(script), T.Script.from_bytes(oscript)
     pk, opk = E.public_key(seed), E.public_key(oseed)
@@ -69,7 +69,7 @@ def one(F, T, seed, oseed, script, oscript, w, fl, lockkind, sf=None, prefix=b''
         wit = T.make_taproot_witness_scriptspend(opk, S)
     elif w == 'scriptroot':
         wit = T.make_taproot_witness_scriptspend(root, S)
-    wit = prefix + bytes(wit.bytes)
+    wit = prefix + bytes(wit.bytes) + suffix
     # run through the public pieces so that the cache can be inspected afterwards
     try:
         t1, stack, cache = F.run_script(wit, dict(sf), callstack_limit=limit)
@@ -123,10 +123,11 @@ def record_random(args):
         sv = r.choice(['true', 'true', 'false'])
         x5 = r.randbytes(5)
         body = r.choice([b'', push(x5) + push(x5) + op('EQUAL_VERIFY'), op('TRUE') + op('VERIFY'),
-                         # a block followed by mandatory instructions (a stale RETURN marker would end the script at the block)
-                         op('TRUE') + b'\x2b\x00\x03' + push(b'\x07') + op('POP0') + op('TRUE') + op('VERIFY'),
+                         # a block followed by mandatory instructions (a stale RETURN marker would end the script at the block);
+                         # no POP0 in a body: the last POP0'd item is the marker that tells which script ran
+                         op('TRUE') + b'\x2b\x00\x02' + op('TRUE') + op('VERIFY') + op('TRUE') + op('VERIFY'),
                          # committed scripts whose size sits on a push-size boundary (the script-spend witness pushes the script)
-                         push(r.randbytes(r.choice([245, 246, 247, 248, 249, 250]))) + op('POP0')])
+                         (lambda x: r.choice([b'', push(b'\x01') + op('VERIFY')]) + push(x) + push(x) + op('EQUAL_VERIFY'))(r.randbytes(r.choice([120, 121, 122, 123, 124, 125, 126, 127])))])
         script = push(b'\x51') + op('POP0') + body + (op('TRUE') if sv == 'true' else op('FALSE'))
         oscript = push(b'\x52') + op('POP0') + body + (op('TRUE') if sv == 'true' else op('FALSE'))
         sf = {f'sigfield{i}': r.randbytes(r.choice([1, 8, 50])) for i in range(1, 9) if r.random() < 0.5}
@@ -151,6 +152,21 @@ def record_random(args):
                 raise
             got = [f'raised-{type(e).__name__}', 'noexec']
         out.append({'w': w, 'fl': fl, 'sv': sv, 'lock': lk, 'got': got})
+        # a witness that ends in RETURN after pushing its items: the committed script must still run to completion (a stale
+        # RETURN marker would end it at its first block), natively and non-natively alike
+        if r.random() < 0.2:
+            blk = op('TRUE') + b'\x2b\x00\x02' + op('TRUE') + op('VERIFY')
+            for tail_true in (True, False):
+                bs = push(b'\x51') + op('POP0') + blk + (op('TRUE') if tail_true else op('TRUE') + op('NOT'))
+                bo = push(b'\x52') + op('POP0') + op('TRUE')
+                try:
+                    a = one(F, T, s1, s2, bs, bo, 'scriptspend', 'f0', 'native', sf, suffix=op('RETURN'))
+                    b = one(F, T, s1, s2, bs, bo, 'scriptspend', 'f0', 'nonnative', sf, suffix=op('RETURN'))
+                    want = 'true' if tail_true else 'false'
+                    out.append({'w': 'eq', 'fl': 'f0', 'sv': 'true', 'lock': 'both', 'got': [a[0], b[0]] if a[0] == want else [a[0], 'native-verdict-wrong']})
+                except BaseException as e:
+                    if isinstance(e, (KeyboardInterrupt, SystemExit)):
+                        raise
         # exactly two levels of call budget left for the lock (what the non-native lock needs): both locks accept
         if r.random() < 0.15:
             L = r.choice([2, 3, 4, 8, 128])
